@@ -104,9 +104,11 @@ def r2(ctx, cfg):
             ev = dt = ("unknown", "")
             if ok:
                 d = dict(inner[2])
-                ev, dt = peel(d.get("events", ev)), peel(d.get("data", dt))
-                ok_ev = ev[0] == "field" and ev[2] == "events" and submsg._is_ok_outcome(ev[1]) and _no_updates(ev[1])
-                ok_dt = dt[0] == "field" and dt[2] == "data" and submsg._is_ok_outcome(dt[1]) and _no_updates(dt[1])
+                raw_ev, raw_dt = d.get("events", ev), d.get("data", dt)
+                ev, dt = peel(raw_ev), peel(raw_dt)
+                # (as they are: nothing written to them, nothing filtered / sorted / truncated in place on the way)
+                ok_ev = ev[0] == "field" and ev[2] == "events" and submsg._is_ok_outcome(ev[1]) and _no_updates(ev[1]) and not contains(raw_ev, lambda x: x[0] == "upd")
+                ok_dt = dt[0] == "field" and dt[2] == "data" and submsg._is_ok_outcome(dt[1]) and _no_updates(dt[1]) and not contains(raw_dt, lambda x: x[0] == "upd")
                 ok = ok_ev and ok_dt
             ctx.ob(R, KEY, "Reply.result-Ok-carries-submsg-events-and-data", ok,
                    "success Reply carries events=%s data=%s, expected the sub-message's own response" % (fmt(ev)[:120], fmt(dt)[:120]),
